@@ -9,6 +9,8 @@ import (
 	"flag"
 	"fmt"
 	"io"
+	"net"
+	"net/http"
 	"net/http/httptest"
 	"os"
 	"os/exec"
@@ -26,7 +28,10 @@ import (
 	"github.com/avos-io/goat/internal/verifhook"
 	"github.com/jonboulle/clockwork"
 	"google.golang.org/grpc"
+	"google.golang.org/grpc/codes"
 	"google.golang.org/grpc/metadata"
+	"google.golang.org/grpc/stats"
+	"google.golang.org/grpc/status"
 	"google.golang.org/protobuf/proto"
 	"google.golang.org/protobuf/types/known/wrapperspb"
 )
@@ -39,6 +44,7 @@ import (
 // random yields at the instrumented points.
 
 var flagRaceLoops = flag.Int("raceloops", 1, "repetitions of every workload (race binary)")
+var flagRaceOnly = flag.String("raceonly", "", "debugging: run only the workload of this name (race binary)")
 
 // how much of the traffic went through (sanity: the workloads do exercise the code)
 var raceOkUnary, raceOkMsgs, raceErrs atomic.Int64
@@ -77,12 +83,17 @@ func raceEcho() *echoImpl {
 // one sending and one receiving goroutine per stream; Header/Trailer concurrent
 // with sends. Errors are expected when the connection is stopped under it.
 func raceTraffic(cc grpc.ClientConnInterface, nUnary, nStreams int, wg *sync.WaitGroup) {
+	raceTrafficT(cc, nUnary, nStreams, wg, 2*time.Second, 5*time.Second)
+}
+
+// the same with the callers' deadlines chosen by the workload (calls whose peer has gone wait for them)
+func raceTrafficT(cc grpc.ClientConnInterface, nUnary, nStreams int, wg *sync.WaitGroup, unaryTO, streamTO time.Duration) {
 	for i := 0; i < nUnary; i++ {
 		wg.Add(1)
 		go func(i int) {
 			defer wg.Done()
 			for k := 0; k < 6; k++ {
-				ctx, cancel := context.WithTimeout(context.Background(), 2*time.Second)
+				ctx, cancel := context.WithTimeout(context.Background(), unaryTO)
 				var out wrapperspb.BytesValue
 				err := cc.Invoke(ctx, "/verif.Echo/Unary", bv([]byte(fmt.Sprintf("u-%d-%d", i, k))), &out) // call options are not supported by goat
 				cancel()
@@ -98,7 +109,7 @@ func raceTraffic(cc grpc.ClientConnInterface, nUnary, nStreams int, wg *sync.Wai
 		wg.Add(1)
 		go func(i int) {
 			defer wg.Done()
-			ctx, cancel := context.WithTimeout(context.Background(), 5*time.Second)
+			ctx, cancel := context.WithTimeout(context.Background(), streamTO)
 			defer cancel()
 			ctx = metadata.AppendToOutgoingContext(ctx, "k", fmt.Sprint(i))
 			cs, err := cc.NewStream(ctx, descBidi, "/verif.Echo/Bidi")
@@ -161,7 +172,15 @@ func wlMux(stop bool) func(int64) {
 		if stop {
 			wg.Add(2)
 			go func() { defer wg.Done(); time.Sleep(time.Duration(seed%3+2) * time.Millisecond); scancel() }()
-			go func() { defer wg.Done(); time.Sleep(time.Duration(seed%5+3) * time.Millisecond); l.C.FailRead(errInjected) }()
+			go func() {
+				defer wg.Done()
+				time.Sleep(time.Duration(seed%5+3) * time.Millisecond)
+				// the connection dies in both directions at once: a stream's Write fails while the
+				// multiplexer's read loop fails on the same connection (the write-error path of streams
+				// and unary calls asks the multiplexer for the error that broke the connection)
+				l.C.FailWrites(errInjected)
+				l.C.FailRead(errInjected)
+			}()
 		}
 		wg.Wait()
 		if !stop { // a second wave after the first has finished, then Stop concurrent with it
@@ -197,50 +216,196 @@ func wlChan(seed int64) {
 	<-served
 }
 
-// a proxy with many peers: clients call servers through it; peers come and go
+// raceBurst fires n unary calls at once on one client connection.
+func raceBurst(cc grpc.ClientConnInterface, n int, timeout time.Duration, wg *sync.WaitGroup) {
+	for i := 0; i < n; i++ {
+		wg.Add(1)
+		go func(i int) {
+			defer wg.Done()
+			ctx, cancel := context.WithTimeout(context.Background(), timeout)
+			defer cancel()
+			var out wrapperspb.BytesValue
+			if err := cc.Invoke(ctx, "/verif.Echo/Unary", bv([]byte(fmt.Sprintf("b-%d", i))), &out); err == nil {
+				raceOkUnary.Add(1)
+			} else {
+				raceErrs.Add(1)
+			}
+		}(i)
+	}
+}
+
+// a proxy with many peers: clients call servers through it; peers come and go.
+// Besides the steady traffic between attached peers the cold paths are driven:
+//   - destinations the proxy has to DIAL ON DEMAND with a slow dial (300 ms of real time), hit by a
+//     burst of calls larger than the per-peer queue (16) while the dial is still in progress: the
+//     queue overflows and the drop branch runs for a peer whose connect goroutine has not stored
+//     its connection yet; then more traffic to the established peer;
+//   - a burst at an attached peer whose writer is stalled (its connection's Write blocks), then released;
+//   - dials that fail (at once and after a delay): connect's error path, serveClients' removal of
+//     the peer and the disconnect callback, re-dial of the same name afterwards;
+//   - the interceptor rejecting and rewriting destinations;
+//   - raw envelopes: no header, a source that is not the sender, a pre-set return route (ProxyNext),
+//     a pre-filled ProxyRecord (the server's reply then carries ProxyNext and is routed by it),
+//     undecodable request metadata.
 func wlProxy(seed int64) {
 	ctx, cancel := context.WithCancel(context.Background())
 	const n = 4
 	var disc atomic.Int64
-	p := goat.NewProxy(ctx, "proxy", func(id string) (goat.RpcReadWriter, error) { return nil, errors.New("no dial") },
-		func(h *goatorepo.RequestHeader) error { return nil }, func(id string, reason error) { disc.Add(1) })
+	var lmu sync.Mutex // guards links (the dial function runs in the proxy's connect goroutines)
+	var links []*Link
+	var servers sync.WaitGroup
+	newLink := func() *Link {
+		l := NewLink(false)
+		l.Auto = true
+		lmu.Lock()
+		links = append(links, l)
+		lmu.Unlock()
+		return l
+	}
+	serve := func(id string, l *Link) {
+		srv := newEchoServer(id, raceEcho())
+		servers.Add(1)
+		go func() { defer servers.Done(); srv.Serve(ctx, l.S) }()
+	}
+	dial := func(id string) (goat.RpcReadWriter, error) {
+		switch {
+		case strings.HasPrefix(id, "slow"):
+			time.Sleep(300 * time.Millisecond) // the peer is far away; the race workloads are free-running, real time
+			l := newLink()
+			serve(id, l)
+			return l.C, nil
+		case strings.HasPrefix(id, "latefail"):
+			time.Sleep(15 * time.Millisecond)
+			return nil, errors.New("dial failed late")
+		}
+		return nil, errors.New("no dial")
+	}
+	intercept := func(h *goatorepo.RequestHeader) error {
+		switch h.Destination {
+		case "deny":
+			return errors.New("denied")
+		case "alias":
+			h.Destination = "s0"
+		}
+		return nil
+	}
+	p := goat.NewProxy(ctx, "proxy", dial, intercept, func(id string, reason error) { disc.Add(1) })
 	done := make(chan struct{})
 	go func() { p.Serve(); close(done) }()
-	var links []*Link
 	var wg sync.WaitGroup
-	var servers sync.WaitGroup
+	attach := func(id, dst string) *goat.ClientConn { // a client peer of the proxy calling dst
+		l := newLink()
+		p.AddClient(id, l.S)
+		return goat.NewClientConn(l.C, id, dst)
+	}
 	for i := 0; i < n; i++ {
 		// server peer s<i>
-		ls := NewLink(false)
-		ls.Auto = true
-		links = append(links, ls)
-		srv := newEchoServer(fmt.Sprintf("s%d", i), raceEcho())
-		servers.Add(1)
-		go func() { defer servers.Done(); srv.Serve(ctx, ls.S) }()
+		ls := newLink()
+		serve(fmt.Sprintf("s%d", i), ls)
 		p.AddClient(fmt.Sprintf("s%d", i), ls.C)
 		// client peer c<i>
-		lc := NewLink(false)
-		lc.Auto = true
-		links = append(links, lc)
-		p.AddClient(fmt.Sprintf("c%d", i), lc.S)
-		cc := goat.NewClientConn(lc.C, fmt.Sprintf("c%d", i), fmt.Sprintf("s%d", i))
-		raceTraffic(cc, 3, 2, &wg)
+		cc := attach(fmt.Sprintf("c%d", i), fmt.Sprintf("s%d", i))
+		raceTrafficT(cc, 3, 2, &wg, 400*time.Millisecond, 1500*time.Millisecond)
 	}
 	// a peer is replaced and one fails while traffic flows
 	wg.Add(1)
 	go func() {
 		defer wg.Done()
 		time.Sleep(time.Duration(seed%4) * time.Millisecond)
-		extra := NewLink(false)
-		extra.Auto = true
+		extra := newLink()
 		p.AddClient("c0", extra.S)
-		links[1].C.FailRead(errInjected)
-		links[3].S.FailRead(errInjected)
+		lmu.Lock()
+		l1, l3 := links[1], links[3]
+		lmu.Unlock()
+		l1.C.FailRead(errInjected)
+		l3.S.FailRead(errInjected)
 		p.VerifProxyClients()
+	}()
+
+	// on-demand slow dials under a burst larger than the peer's queue
+	for k := 0; k < 2; k++ {
+		wg.Add(1)
+		go func(k int) {
+			defer wg.Done()
+			time.Sleep(time.Duration((seed+int64(k)*7)%5) * time.Millisecond)
+			dst := fmt.Sprintf("slow%d", k)
+			cc := attach(fmt.Sprintf("cb%d", k), dst)
+			var bwg sync.WaitGroup
+			raceBurst(cc, 24+8*k, 700*time.Millisecond, &bwg) // > 16 at once, the dial takes 300 ms
+			bwg.Wait()
+			p.VerifProxyClients()
+			raceBurst(cc, 20, 500*time.Millisecond, &bwg) // the peer is established now
+			raceTrafficT(cc, 1, 2, &bwg, 400*time.Millisecond, 1500*time.Millisecond)
+			bwg.Wait()
+		}(k)
+	}
+	// a burst at an attached peer whose writer is stalled
+	wg.Add(1)
+	go func() {
+		defer wg.Done()
+		lst := newLink()
+		serve("stall", lst)
+		lst.C.BlockWrites() // what the proxy writes to this peer blocks
+		p.AddClient("stall", lst.C)
+		cc := attach("cs", "stall")
+		var bwg sync.WaitGroup
+		raceBurst(cc, 28, 600*time.Millisecond, &bwg)
+		time.Sleep(time.Duration(100+seed%20) * time.Millisecond)
+		lst.C.UnblockWrites()
+		bwg.Wait()
+		raceBurst(cc, 6, 300*time.Millisecond, &bwg)
+		bwg.Wait()
+	}()
+	// failing dials, rejected and rewritten destinations
+	wg.Add(1)
+	go func() {
+		defer wg.Done()
+		var bwg sync.WaitGroup
+		for round := 0; round < 3; round++ {
+			raceBurst(attach(fmt.Sprintf("cf%d", round), "latefail0"), 5, 40*time.Millisecond, &bwg)
+			raceBurst(attach(fmt.Sprintf("cn%d", round), "nowhere"), 3, 20*time.Millisecond, &bwg)
+			bwg.Wait()
+			p.VerifProxyClients()
+		}
+		raceBurst(attach("cd", "deny"), 3, 20*time.Millisecond, &bwg)
+		raceBurst(attach("ca", "alias"), 6, 500*time.Millisecond, &bwg)
+		bwg.Wait()
+	}()
+	// raw envelopes
+	wg.Add(1)
+	go func() {
+		defer wg.Done()
+		lraw, lup := newLink(), newLink()
+		p.AddClient("craw", lraw.S)
+		p.AddClient("up", lup.S) // where pre-routed replies end: nobody reads them
+		body, _ := proto.Marshal(bv([]byte("raw")))
+		for i := 0; i < 6; i++ {
+			id := uint64(7000 + i*10)
+			lraw.S.Deliver(&Rpc{Id: id})
+			lraw.S.Deliver(&Rpc{Id: id + 1, Header: hdr("/verif.Echo/Unary", "somebody-else", "s0"), Body: &goatorepo.Body{Data: body}})
+			h := hdr("/verif.Echo/Unary", "craw", "not-s1")
+			h.ProxyNext = []string{"s1"} // routed to s1, which ignores it (not its name)
+			lraw.S.Deliver(&Rpc{Id: id + 2, Header: h, Body: &goatorepo.Body{Data: body}})
+			h = hdr("/verif.Echo/Unary", "craw", "s2")
+			h.ProxyRecord = []string{"up"} // the reply carries ProxyNext = [up] and is routed there
+			lraw.S.Deliver(&Rpc{Id: id + 3, Header: h, Body: &goatorepo.Body{Data: body}})
+			h = hdr("/verif.Echo/Unary", "craw", "s2")
+			h.ProxyRecord = []string{"up"}
+			h.Headers = []*goatorepo.KeyValue{{Key: "x-bin", Value: "!!!"}}
+			lraw.S.Deliver(&Rpc{Id: id + 4, Header: h, Body: &goatorepo.Body{Data: body}})
+			h = hdr("/verif.Echo/Bidi", "craw", "s2")
+			h.ProxyRecord = []string{"up"}
+			h.Headers = []*goatorepo.KeyValue{{Key: "x-bin", Value: "!!!"}}
+			lraw.S.Deliver(&Rpc{Id: id + 5, Header: h}) // a stream open with undecodable metadata: reset
+			runtime.Gosched()
+		}
 	}()
 	wg.Wait()
 	cancel()
-	for _, l := range links {
+	lmu.Lock()
+	all := append([]*Link(nil), links...)
+	lmu.Unlock()
+	for _, l := range all {
 		l.C.FailRead(io.EOF)
 		l.S.FailRead(io.EOF)
 	}
@@ -280,6 +445,15 @@ func wlDemux(seed int64) {
 	}
 	wg.Wait()
 	time.Sleep(5 * time.Millisecond)
+	// the shared connection stops accepting writes while replies are still produced: the per-key
+	// writer goroutines end on the error, the servers behind them keep writing into their channels
+	shared.FailWrites(errInjected)
+	for k := 0; k < 6; k++ {
+		shared.Deliver(&Rpc{Id: uint64(9000 + k), Header: hdr("/verif.Echo/Unary", fmt.Sprintf("k%d", k), "srv"), Body: &goatorepo.Body{Data: body}})
+		shared.Deliver(&Rpc{Id: uint64(9100 + k), Header: hdr("/verif.Echo/Unary", fmt.Sprintf("late%d", k), "srv"), Body: &goatorepo.Body{Data: body}})
+	}
+	time.Sleep(3 * time.Millisecond)
+	d.Cancel("late0")
 	d.Stop()
 	cancel()
 	shared.FailRead(io.EOF)
@@ -372,6 +546,255 @@ func wlHttp(seed int64) {
 	dwg.Wait()
 	cancel()
 	goh.Cancel()
+	wlHttpEndToEnd(seed)
+}
+
+// the HTTP transport end to end over loopback sockets: a client connection and a server, each
+// behind its own GoatOverHttp; every envelope is a POST made by httpReadWriter.Write (the path the
+// in-memory phase above cannot reach). Then the server's listener goes away under traffic: Write
+// fails in client.Do and unregisters the connection.
+func wlHttpEndToEnd(seed int64) {
+	ctx, cancel := context.WithCancel(context.Background())
+	defer cancel()
+	var hS, hC http.Handler // set before the listeners start serving
+	tsS := httptest.NewUnstartedServer(http.HandlerFunc(func(w http.ResponseWriter, r *http.Request) { hS.ServeHTTP(w, r) }))
+	tsC := httptest.NewUnstartedServer(http.HandlerFunc(func(w http.ResponseWriter, r *http.Request) { hC.ServeHTTP(w, r) }))
+	addrS, addrC := tsS.Listener.Addr().(*net.TCPAddr).String(), tsC.Listener.Addr().(*net.TCPAddr).String()
+	srv := newEchoServer("hs", raceEcho())
+	var rwmu sync.Mutex
+	var rws []goat.RpcReadWriter
+	gohS := goat.NewGoatOverHttp(func(addr string, rw goat.RpcReadWriter) {
+		rwmu.Lock()
+		rws = append(rws, rw)
+		rwmu.Unlock()
+		srv.Serve(ctx, rw) // onConnect runs in a goroutine of its own
+	}, func(src string) (string, error) {
+		if src == "hc" {
+			return addrC, nil
+		}
+		return "", errors.New("unknown source")
+	})
+	gohC := goat.NewGoatOverHttp(func(addr string, rw goat.RpcReadWriter) {
+		rwmu.Lock()
+		rws = append(rws, rw)
+		rwmu.Unlock()
+	}, func(src string) (string, error) {
+		if src == "hs" {
+			return addrS, nil
+		}
+		return "", errors.New("unknown source")
+	})
+	hS, hC = gohS, gohC
+	tsS.Start()
+	tsC.Start()
+	rwC := gohC.NewConnection(addrS)
+	cc := goat.NewClientConn(rwC, "hc", "hs")
+	var wg sync.WaitGroup
+	raceTrafficT(cc, 3, 0, &wg, time.Second, 2*time.Second)
+	for i := 0; i < 2; i++ { // ping-pong streams: this transport parks a POST until its envelope is read, so
+		wg.Add(1) // a peer that stops reading (raceTraffic cancels some streams) stalls the connection
+		go func(i int) {
+			defer wg.Done()
+			sctx, scancel := context.WithTimeout(context.Background(), 2*time.Second)
+			defer scancel()
+			cs, err := cc.NewStream(sctx, descBidi, "/verif.Echo/Bidi")
+			if err != nil {
+				return
+			}
+			for k := 0; k < 4; k++ {
+				var m wrapperspb.BytesValue
+				if cs.SendMsg(bv([]byte(fmt.Sprintf("hs-%d-%d", i, k)))) != nil || cs.RecvMsg(&m) != nil {
+					return
+				}
+				raceOkMsgs.Add(1)
+			}
+			cs.CloseSend()
+			var m wrapperspb.BytesValue
+			cs.RecvMsg(&m)
+			cs.Header()
+			cs.Trailer()
+		}(i)
+	}
+	wg.Wait()
+	// second wave with the server's listener closed under it
+	raceBurst(cc, 6, 300*time.Millisecond, &wg)
+	wg.Add(1)
+	go func() {
+		defer wg.Done()
+		time.Sleep(time.Duration(seed%3) * time.Millisecond)
+		tsS.CloseClientConnections()
+		tsS.Listener.Close()
+	}()
+	wg.Wait()
+	raceBurst(cc, 3, 100*time.Millisecond, &wg) // the connection was unregistered by the failed Write
+	wg.Wait()
+	cc.Close()
+	srv.Stop()
+	cancel()
+	// Shutting down. ServeHTTP parks a request until somebody reads its envelope or its connection is
+	// unregistered (it honours neither the request's context nor Cancel), and a listener cannot close
+	// while a handler is parked. So: no new requests (listeners closed), then every connection is
+	// unregistered the only way the API offers - a Write that fails (connection refused) - until the
+	// handlers have all returned.
+	tsS.Listener.Close()
+	tsC.Listener.Close()
+	closed := make(chan struct{})
+	go func() { tsS.Close(); tsC.Close(); close(closed) }()
+	for waiting := true; waiting; {
+		rwmu.Lock()
+		all := append([]goat.RpcReadWriter{rwC}, rws...)
+		rwmu.Unlock()
+		for _, rw := range all {
+			wctx, wcancel := context.WithTimeout(context.Background(), 200*time.Millisecond)
+			rw.Write(wctx, &Rpc{})
+			wcancel()
+		}
+		select {
+		case <-closed:
+			waiting = false
+		case <-time.After(5 * time.Millisecond):
+		}
+	}
+	gohS.Cancel()
+	gohC.Cancel()
+	time.Sleep(5 * time.Millisecond)
+}
+
+// ---------- client and server with every option: stats handlers, (chained) interceptors ----------
+type raceStatsHandler struct{ n atomic.Int64 }
+
+func (h *raceStatsHandler) TagRPC(ctx context.Context, _ *stats.RPCTagInfo) context.Context {
+	h.n.Add(1)
+	return ctx
+}
+func (h *raceStatsHandler) HandleRPC(context.Context, stats.RPCStats) { h.n.Add(1) }
+func (h *raceStatsHandler) TagConn(ctx context.Context, _ *stats.ConnTagInfo) context.Context {
+	h.n.Add(1)
+	return ctx
+}
+func (h *raceStatsHandler) HandleConn(context.Context, stats.ConnStats) { h.n.Add(1) }
+
+// handlers that fail, send headers explicitly, set trailers late; malformed envelopes straight
+// into the server; calls on a closed client connection
+func wlOpts(seed int64) {
+	shS, shS2, shC := &raceStatsHandler{}, &raceStatsHandler{}, &raceStatsHandler{}
+	var icount atomic.Int64
+	ui := func(ctx context.Context, req any, info *grpc.UnaryServerInfo, h grpc.UnaryHandler) (any, error) {
+		icount.Add(1)
+		return h(ctx, req)
+	}
+	si := func(srv any, ss grpc.ServerStream, info *grpc.StreamServerInfo, h grpc.StreamHandler) error {
+		icount.Add(1)
+		return h(srv, ss)
+	}
+	echo := &echoImpl{
+		unary: func(ctx context.Context, req []byte) ([]byte, bool, error) {
+			grpc.SetHeader(ctx, metadata.Pairs("h", "1"))
+			grpc.SendHeader(ctx, metadata.Pairs("h2", "2"))
+			grpc.SetTrailer(ctx, metadata.Pairs("t", "1"))
+			switch {
+			case bytes.HasSuffix(req, []byte("-3")):
+				return nil, false, status.Error(codes.NotFound, "no such thing")
+			case bytes.HasSuffix(req, []byte("-4")):
+				return nil, false, errors.New("plain error")
+			}
+			return req, true, nil
+		},
+		stream: func(kind string, s grpc.ServerStream) error {
+			s.SetHeader(metadata.Pairs("sh", kind))
+			s.SendHeader(metadata.Pairs("sh2", kind))
+			s.SendHeader(metadata.Pairs("sh3", kind)) // already sent: error
+			n := 0
+			for {
+				var m wrapperspb.BytesValue
+				if err := s.RecvMsg(&m); err != nil {
+					s.SetTrailer(metadata.Pairs("st", kind))
+					if errors.Is(err, io.EOF) {
+						return nil
+					}
+					return err
+				}
+				n++
+				if n == 5 && bytes.Contains(m.Value, []byte("s-1-")) {
+					return status.Error(codes.Aborted, "handler gives up")
+				}
+				if err := s.SendMsg(&m); err != nil {
+					return err
+				}
+			}
+		},
+	}
+	mk := func(chained bool) (*Link, *goat.Server, *goat.ClientConn, chan struct{}, context.CancelFunc) {
+		l := NewLink(false)
+		l.Auto = true
+		var opts []goat.ServerOption
+		if chained {
+			opts = []goat.ServerOption{goat.ChainUnaryInterceptor(ui, ui, ui), goat.ChainStreamInterceptor(si, si), goat.StatsHandler(shS), goat.StatsHandler(shS2)}
+		} else {
+			opts = []goat.ServerOption{goat.UnaryInterceptor(ui), goat.StreamInterceptor(si), goat.StatsHandler(shS)}
+		}
+		srv := newEchoServer("dst", echo, opts...)
+		sctx, scancel := context.WithCancel(context.Background())
+		served := make(chan struct{})
+		go func() { srv.Serve(sctx, l.S); close(served) }()
+		cc := goat.NewClientConn(l.C, "src", "dst",
+			goat.WithStatsHandler(shC),
+			goat.WithUnaryInterceptor(func(ctx context.Context, method string, req, reply any, _ *grpc.ClientConn, inv grpc.UnaryInvoker, opts ...grpc.CallOption) error {
+				icount.Add(1)
+				return inv(ctx, method, req, reply, nil, opts...)
+			}),
+			goat.WithStreamInterceptor(func(ctx context.Context, desc *grpc.StreamDesc, _ *grpc.ClientConn, method string, st grpc.Streamer, opts ...grpc.CallOption) (grpc.ClientStream, error) {
+				icount.Add(1)
+				return st(ctx, desc, nil, method, opts...)
+			}))
+		return l, srv, cc, served, scancel
+	}
+	for _, chained := range []bool{false, true} {
+		l, srv, cc, served, scancel := mk(chained)
+		var wg sync.WaitGroup
+		raceTraffic(cc, 6, 4, &wg)
+		// malformed and unroutable envelopes straight into the server, concurrent with the traffic
+		wg.Add(1)
+		go func() {
+			defer wg.Done()
+			body, _ := proto.Marshal(bv([]byte("x")))
+			bad := []*goatorepo.KeyValue{{Key: "x-bin", Value: "!!!"}}
+			for i := 0; i < 4; i++ {
+				id := uint64(50000 + i*20)
+				l.S.Deliver(&Rpc{Id: id})
+				l.S.Deliver(&Rpc{Id: id + 1, Header: hdr("nomethod", "src", "dst"), Body: &goatorepo.Body{Data: body}})
+				l.S.Deliver(&Rpc{Id: id + 2, Header: hdr("/verif.Echo/Unary", "src", "elsewhere"), Body: &goatorepo.Body{Data: body}})
+				l.S.Deliver(&Rpc{Id: id + 3, Header: hdr("/nope.Svc/M", "src", "dst"), Body: &goatorepo.Body{Data: body}})
+				l.S.Deliver(&Rpc{Id: id + 4, Header: hdr("/verif.Echo/Nope", "src", "dst"), Body: &goatorepo.Body{Data: body}})
+				h := hdr("/verif.Echo/Unary", "src", "dst")
+				h.Headers = bad
+				l.S.Deliver(&Rpc{Id: id + 5, Header: h, Body: &goatorepo.Body{Data: body}})
+				h = hdr("/verif.Echo/Bidi", "src", "dst")
+				h.Headers = bad
+				l.S.Deliver(&Rpc{Id: id + 6, Header: h})
+				l.S.Deliver(&Rpc{Id: id + 7, Header: hdr("/verif.Echo/Unary2", "src", "dst"), Body: &goatorepo.Body{Data: []byte{0xff, 0xff}}}) // undecodable body
+				l.S.Deliver(&Rpc{Id: id + 8, Header: hdr("/verif.Echo/Bidi", "src", "dst"), Trailer: &goatorepo.Trailer{}}) // an end for a stream that never began
+				l.S.Deliver(&Rpc{Id: id + 9, Header: hdr("/verif.Echo/Bidi", "src", "dst"), Reset_: &goatorepo.Reset{Type: "RST_STREAM"}})
+				// and towards the client: replies nobody waits for
+				l.C.Deliver(&Rpc{Id: id + 10, Header: hdr("/verif.Echo/Unary", "dst", "src"), Body: &goatorepo.Body{Data: body}})
+				l.C.Deliver(&Rpc{Id: id + 11})
+				runtime.Gosched()
+			}
+		}()
+		wg.Wait()
+		// Close concurrent with a last wave: calls on a closing / closed client connection
+		raceTraffic(cc, 3, 2, &wg)
+		time.Sleep(time.Duration(seed%3) * time.Millisecond)
+		cc.Close()
+		wg.Wait()
+		raceBurst(cc, 2, 50*time.Millisecond, &wg)
+		wg.Wait()
+		srv.Stop()
+		scancel()
+		l.S.FailRead(io.EOF)
+		l.C.FailRead(io.EOF)
+		<-served
+	}
 }
 
 func raceWorkloads() []raceWorkload {
@@ -382,6 +805,7 @@ func raceWorkloads() []raceWorkload {
 		{"proxy", wlProxy},
 		{"demux", wlDemux},
 		{"http", wlHttp},
+		{"opts", wlOpts},
 	}
 }
 
@@ -405,13 +829,18 @@ func TestC15Workload(t *testing.T) {
 	})
 	defer verifhook.SetYield(nil)
 	for wi, w := range raceWorkloads() {
+		if *flagRaceOnly != "" && *flagRaceOnly != w.name {
+			continue
+		}
 		for _, procs := range []int{1, 4, 16} {
 			runtime.GOMAXPROCS(procs)
 			fmt.Fprintf(os.Stderr, "\n=== C15RUN %d %s %d\n", wi, w.name, procs)
+			t0 := time.Now()
 			for i := 0; i < *flagRaceLoops; i++ {
 				w.run(seed + int64(i))
 			}
 			time.Sleep(10 * time.Millisecond) // let stragglers finish inside their run's section
+			fmt.Fprintf(os.Stderr, "\n=== C15TIME %d ms\n", time.Since(t0).Milliseconds())
 			fmt.Fprintf(os.Stderr, "\n=== C15STAT %d %d %d\n", raceOkUnary.Swap(0), raceOkMsgs.Swap(0), raceErrs.Swap(0))
 		}
 	}
